@@ -25,6 +25,9 @@ pub struct ActorSpec {
     /// the Drop of an incarnation whose pre_start failed waits (bounded) until the spawner reacted to the failure
     #[serde(default)]
     pub drop_gate: bool,
+    /// pre_start parks (async, bounded) until the recorder opens the actor's start gate
+    #[serde(default)]
+    pub pre_gate: bool,
 }
 
 #[derive(Serialize, Deserialize, Clone, Debug)]
@@ -45,6 +48,10 @@ pub enum Op {
     /// send a cast whose handler waits for the actor's gate, and wait until the handler is entered
     SendGate { slot: usize },
     OpenGate { slot: usize },
+    OpenStart { slot: usize },
+    WaitStartEntered { slot: usize },
+    WaitSettled { slot: usize },
+    WaitSpawnRet { slot: usize },
     /// wait (bounded) until every cast accepted so far was handled
     WaitHandled,
     /// stop the actor and await its exit
@@ -102,6 +109,7 @@ fn plain(cap: usize) -> ActorSpec {
         pre_delay: 0,
         stop_delay: 0,
         drop_gate: false,
+        pre_gate: false,
     }
 }
 
@@ -341,6 +349,7 @@ pub fn generate(seed: u64, class: u32) -> Program {
 ///
 /// kind "respawn", variant 0..: a named spawn whose pre_start fails, followed at once by a spawn of the same
 /// name while the failed incarnation is still being torn down (its Drop is gated).
+/// kind "race", variant 0..4: two spawns race for one name while the first sits in a gated pre_start.
 /// kind "layout", variant 0..18: process group with members A (mailbox full), B (closed, not yet pruned) and
 /// C (live, room), every join order (6) x every cursor position (3); the group send must reach C.
 pub fn directed(kind: &str, variant: u64) -> Program {
@@ -378,6 +387,42 @@ pub fn directed(kind: &str, variant: u64) -> Program {
                 }
                 threads.push(t1);
             }
+        }
+        "race" => {
+            // two spawns race for one name: the second arrives while the first incarnation is parked inside its
+            // gated pre_start; variant bit 0: which gate opens first, bit 1: the first incarnation's start-up fails
+            let second_first = variant & 1 == 1;
+            let first_fails = variant & 2 == 2;
+            let mut a = plain(1);
+            a.name = Some("x".into());
+            a.pre_gate = true;
+            a.pre_ok = !first_fails;
+            actors.push(a);
+            let mut b = plain(2);
+            b.name = Some("x".into());
+            b.pre_gate = true;
+            actors.push(b);
+            let mut c = plain(3);
+            c.name = Some("x".into());
+            actors.push(c);
+            threads.push(vec![Op::Spawn { slot: 0 }]);
+            threads.push(vec![Op::WaitStartEntered { slot: 0 }, Op::Spawn { slot: 1 }]);
+            let (x, y) = if second_first { (1, 0) } else { (0, 1) };
+            threads.push(vec![
+                Op::WaitStartEntered { slot: 0 },
+                Op::WaitSettled { slot: 1 },
+                Op::Lookup { name: "x".into(), send: None }, // nobody has started yet: invisible
+                Op::OpenStart { slot: x },
+                Op::WaitSpawnRet { slot: x },
+                Op::Lookup { name: "x".into(), send: None },
+                Op::OpenStart { slot: y },
+                Op::WaitSpawnRet { slot: y },
+                Op::Lookup { name: "x".into(), send: Some("cast".into()) },
+                Op::StopWait { slot: 0 }, // the first incarnation leaves ...
+                Op::Lookup { name: "x".into(), send: None }, // ... a second one, if admitted, must still be found
+                Op::Spawn { slot: 2 },
+                Op::Lookup { name: "x".into(), send: None },
+            ]);
         }
         _ => {
             let perms = [[0usize, 1, 2], [0, 2, 1], [1, 0, 2], [1, 2, 0], [2, 0, 1], [2, 1, 0]];
